@@ -49,6 +49,7 @@ func init() {
 			{ID: "C10.R24", Text: "leader-assigned numbering, the RPC client: handed out only when connected ((client, nil) ⇔ connect succeeded), a dial keeps the connection and marks the client connected ⇔ it succeeded, Close closes a connected client once and is a no-op otherwise (exhaustive)", Run: rpcClientLifecycle},
 			{ID: "C10.R25", Text: "Couchbase membership, the numbering step evaluated whole (1..3 live instances, every equality pattern of their ids with this member's id): own number = position of the first instance carrying this member's id, group size = length of the list; announced ⇔ different from the numbering in effect; the list is recorded; a list without this member stops the client", Run: cbmNumbering},
 			{ID: "C10.R26", Text: "a peer identity that cannot be read is fatal on the branch on which reading it failed (members never number themselves against a half-read identity)", Run: identityParse},
+			{ID: "C10.R27", Text: "who counts as live: the comparison isAlive returns, with every operand moved to one side, reads interval + tolerance + lastHeartbeat − now > 0 (linear form of the SSA expression: indifferent to operand order, mirroring and temporaries; decides the sign structure, not the timing)", Run: livenessTest},
 			{ID: "C10.R5", Text: "Couchbase membership: lastActiveInstances is written only in the numbering step after the publish decision; on CAS mismatch the round is restarted (monitor re-entered), nothing is rewritten", Run: c10r5},
 		},
 	})
